@@ -112,4 +112,60 @@ def run(chk):
         else:
             chk.ok('C05-R3', where, sample='%s: build..()? then emit' % where)
     chk.floor('functions calling emit', emits, 3)
+    r4(chk, fx)
     return ('Dominance rules over the structured HIR of the pipeline functions. That the checker *detects* each definite error at every nesting depth is behaviour of the type checker and is not decided.'), {}
+
+
+DEFINITE = ('no_var_error', 'no_attr_error', 'too_many_args_error', 'args_missing_error', 'type_mismatch_error', 'singular_no_attr_error')
+INQ = 'crates/erg_compiler/context/inquire.rs'
+
+
+def r4(chk, fx):
+    chk.rule('C05-R4', 'a definite-error value (no_var_error, no_attr_error, too_many_args_error, args_missing_error, type_mismatch_error) built in the checker is never discarded: '
+                       'it is not a statement of its own and is not bound to `_`')
+    chk.rule('C05-R5', 'the arity check of Context::substitute_subr_call counts a parameter without a name as missing unless it was passed positionally: the `missing_params` filter '
+                       'answers true for `pt.name() == None` (names are the only evidence of a keyword argument)')
+    n = 0
+    for file in (INQ, LOWER, 'crates/erg_compiler/context/register.rs'):
+        for f in fx.fns(file):
+            def visit(node, parent):
+                nonlocal n
+                if node.get('k') == 'Call' and T.last_seg(node.get('fn') or '') in DEFINITE and 'Error' in (node.get('fn') or ''):
+                    n += 1
+                    where = T.norm(f['path'])
+                    dropped = parent is not None and (parent.get('k') == 'Semi' or (parent.get('k') == 'Let' and parent['pat'].get('k') == 'Wild'))
+                    if dropped:
+                        chk.bad('C05-R4', where, 'dropped:%s' % T.last_seg(node['fn']), '%s builds `%s(..)` and discards it: the program is accepted although the error was detected'
+                                % (where, T.last_seg(node['fn'])), file, node['l'])
+                    else:
+                        chk.ok('C05-R4', (where, node['l']))
+                for c in T.children(node):
+                    visit(c, node if 'k' in node else parent)
+            visit(f['body'], None)
+    chk.floor('definite-error constructions', n, 20)
+    f = fx.fn(INQ, 'Context::substitute_subr_call')
+    lets = [x for x in T.walk(f['body']) if x.get('k') == 'Let' and x['pat'].get('k') == 'Bind' and x['pat']['n'] == 'missing_params']
+    if not chk.need(len(lets) == 1, 'substitute_subr_call: `missing_params` not found'):
+        return
+    filt = [c for c in T.calls(lets[0]['init']) if c.get('k') == 'MCall' and c['n'] == 'filter']
+    if not chk.need(len(filt) == 1 and T.peel(filt[0]['a'][0]).get('k') == 'Closure', 'substitute_subr_call: the filter of missing_params was not recognised'):
+        return
+    body = T.peel(T.peel(filt[0]['a'][0])['b'])
+    none_case = None
+    if body.get('k') == 'MCall' and T.show(body['r']).endswith('.name()'):
+        if body['n'] == 'is_none_or':
+            none_case = True
+        elif body['n'] == 'is_some_and':
+            none_case = False
+        elif body['n'] == 'map_or' and body['a']:
+            v = T.peel(body['a'][0]).get('v') or {}
+            none_case = v.get('bool')
+        elif body['n'] == 'is_none':
+            none_case = True
+    if none_case is None:
+        chk.lost.append('substitute_subr_call: unrecognised form of the missing_params predicate: %s' % T.show(body)[:80])
+    elif none_case:
+        chk.ok('C05-R5', 'missing-filter', sample='missing_params filter: `%s` (unnamed parameter counts as missing)' % T.show(body)[:70])
+    else:
+        chk.bad('C05-R5', 'Context::substitute_subr_call', 'unnamed-never-missing', 'the missing_params filter `%s` answers false for a parameter without a name: a call with too few '
+                'arguments to a callee with anonymous parameters (`f: (Int, Int) -> Int; f x`) is accepted' % T.show(body)[:80], INQ, filt[0]['l'])
